@@ -1,0 +1,24 @@
+//go:build verif
+
+package commitments
+
+// Contracts for the deductive checker in /verif (comment-only; compiled only under the verif tag).
+
+// Commit: the witness is drawn from the caller's reader during this call (and from nothing else), the commitment is
+// CommitWithWitness(message, that witness); the reader stays on its stream and only moves forward.
+//@ func Commit
+//@   property C07
+//@   uses reader
+//@   modifies shk(prng)
+//@   ensures err == nil ==> ownDraw(box(witness), old(shk(prng)), shk(prng))
+//@   ensures err == nil ==> commitment == res(key.CommitWithWitness(message, witness), 0)
+//@   ensures streamOf(shk(prng)) == streamOf(old(shk(prng))) && rpos(shk(prng)) >= rpos(old(shk(prng)))
+
+// ReRandomise: the blinding shift is drawn from the caller's reader during this call.
+//@ func ReRandomise
+//@   property C07
+//@   uses reader
+//@   modifies shk(prng)
+//@   ensures err == nil ==> ownDraw(box(witness), old(shk(prng)), shk(prng))
+//@   ensures err == nil ==> newCommitment == res(key.ReRandomise(commitment, witness), 0)
+//@   ensures streamOf(shk(prng)) == streamOf(old(shk(prng))) && rpos(shk(prng)) >= rpos(old(shk(prng)))
